@@ -61,6 +61,8 @@ PyEq(v, w) ==
   ELSE IF v.t = "qn" /\ w.t = "qn" THEN Uri(v.q) = Uri(w.q)
   ELSE IF v.t = "qn" /\ w.t = "uri" THEN Uri(v.q) = w.u
   ELSE IF v.t = "uri" /\ w.t = "qn" THEN v.u = Uri(w.q)
+  \* Literal.__eq__: value, datatype (a QualifiedName: by URI, whatever its prefix) and language
+  ELSE IF v.t = "lit" /\ w.t = "lit" THEN v.v = w.v /\ Uri(v.dt) = Uri(w.dt)
   ELSE v = w
 
 (* membership in a Python set additionally needs equal hashes: an Identifier and a *)
